@@ -5,7 +5,7 @@ decided."""
 import ast
 import re
 
-from ..core import (AnalysisError, local_defs, assigned_targets, body_nodes, call_name, dotted, enclosing_stmt, is_self_attr, key_text, names_in,
+from ..core import (AnalysisError, bound_args, local_defs, assigned_targets, body_nodes, call_name, dotted, enclosing_stmt, is_self_attr, key_text, names_in,
                     params, parent, stmts_of, unparse)
 from ..dtable import run_paths
 from ..flow import possibly_undefined, reaching_defs
@@ -245,6 +245,15 @@ def check_grouped_site(prog, rep):
     why = None
     sel = find('$ops = $J if $$c else $I', f)
     sel = [(n, e) for n, e in sel if unparse(e['$$c']) in ('need_JW', 'need_JW is True')]
+    for st in ast.walk(f):          # the same selection written as if/else
+        if isinstance(st, ast.If):
+            t, tb, fb = branches(st)
+            if unparse(t) == 'need_JW' and len(tb) == 1 and len(fb) == 1:
+                e1 = pmatch('$ops = $J', tb[0])
+                e2 = pmatch('$ops = $I', fb[0], {'$ops': e1['$ops']} if e1 else None)
+                if e1 and e2:
+                    e2.update(e1)
+                    sel.append((st, e2))
     if len(sel) != 1:
         why = 'the choice between the JW list and the identity list by need_JW was not found'
     else:
@@ -282,9 +291,28 @@ def check_grouped_site(prog, rep):
     check_local_alias(rep, m, 'GroupedSite.__init__', f)
     # need_JW flag and hc name forwarded to add_op
     rep.instance('GROUPED-jw', {'rule': 'flags forwarded'})
-    ok = any(isinstance(c, ast.Call) and dotted(c.func) == 'self.add_op' and len(c.args) >= 4 and
-             unparse(c.args[2]) == 'need_JW' and unparse(c.args[3]) == 'hc_opname'
-             for c in body_nodes(f))
+    addop = m.func('Site.add_op')
+    defs = local_defs(f)
+
+    def derives(expr, what):
+        todo, seen = [expr], set()
+        while todo:
+            e = todo.pop()
+            if what in unparse(e):
+                return True
+            for nmx in names_in(e):
+                if nmx not in seen:
+                    seen.add(nmx)
+                    todo.extend(defs.get(nmx, []))
+        return False
+
+    ok = False
+    for c in body_nodes(f):
+        if isinstance(c, ast.Call) and dotted(c.func) == 'self.add_op':
+            b = bound_args(c, addop)
+            if 'need_JW' in b and 'hc' in b and derives(b['need_JW'], '.need_JW_string') and \
+                    derives(b['hc'], '.hc_ops'):
+                ok = True
     if not ok:
         rep.violation('GROUPED-jw', m, 'GroupedSite.__init__', 'flags',
                       'grouped operators must inherit need_JW and the (relabelled) hc partner',
@@ -308,6 +336,13 @@ def check_local_alias(rep, m, qual, f):
                 v.slice.lower is None and v.slice.upper is None and isinstance(v.value, ast.Name)
             b = v.id if isinstance(v, ast.Name) else (v.value.id if full_slice else None)
             if b is None or a == b:
+                continue
+            # `a` chosen between several lists (if need_JW: a = X else: a = Y) is a selector,
+            # not a second list kept in step: writes through it are meant to hit X or Y
+            srcs = {unparse(s2.value) for s2 in stmts_of(f) if isinstance(s2, ast.Assign) and
+                    len(s2.targets) == 1 and unparse(s2.targets[0]) == a and
+                    isinstance(s2.value, ast.Name)}
+            if len(srcs) > 1:
                 continue
             if a in writes and b in writes:
                 rep.instance('LOCAL-alias', {'function': qual, 'stmt': key_text(st),
@@ -531,14 +566,21 @@ def _multi_handler_defect(f):
     lp = parent(node)
     while lp is not None and not isinstance(lp, ast.For):
         lp = parent(lp)
-    if lp is None or not isinstance(lp.target, ast.Name):
+    if lp is None:
         return 'the toggle is not inside the loop over the operators'
-    x = lp.target.id
+    if isinstance(lp.target, ast.Name):
+        x, needs = lp.target.id, ['op_needs_JW[%s]' % lp.target.id]
+    elif isinstance(lp.target, ast.Tuple) and pmatch('enumerate(op_needs_JW)', lp.iter) and \
+            len(lp.target.elts) == 2 and all(isinstance(z, ast.Name) for z in lp.target.elts):
+        x = lp.target.elts[0].id
+        needs = [lp.target.elts[1].id, 'op_needs_JW[%s]' % x]
+    else:
+        return 'the loop over the operators was not recognised'
     g = _guards(f, node)
     if '$$m' in e:
-        if 'op_needs_JW[%s]' % x not in unparse(e['$$m']):
+        if not any(nd in unparse(e['$$m']) for nd in needs):
             return 'the flag must toggle with op_needs_JW[%s]' % x
-    elif ('op_needs_JW[%s]' % x, True) not in g:
+    elif not any((nd, True) in g for nd in needs):
         return 'the flag must toggle exactly when op_needs_JW[%s]' % x
     inits = [st for st in stmts_of(f) if isinstance(st, ast.Assign) and
              unparse(st.targets[0]) == flag and st.lineno < lp.lineno]
